@@ -19,6 +19,8 @@ var c15Corpus = []string{
 	"//site.test.evil.example", "//site.test:8443/", "//[::1]/x", "//evil.example:443/", "javascript:alert(1)", "JaVaScRiPt:alert(document.cookie)", "java\tscript:alert(1)",
 	"data:text/html,<script>alert(1)</script>", "x-app://open", "//evil.example/" + strings.Repeat("a", 3000), "/\\\t/evil.example", "//\tevil.example", "https://evil.example?x=://",
 	"//evil.example/%2F..", "\\\\\\evil.example", "/\x0b/evil.example", "/\x00/evil.example",
+	// dot segments: harmless to a browser as they stand, but http.Redirect path.Clean()s the target
+	"/./\\evil.example/", "/x/../\\evil.example/x", "/.//evil.example/", "/x/..//evil.example", "/./\\\\evil.example", "/.\\/evil.example", "/..//evil.example", "/a/./../\\evil.example",
 	// percent-encoded spellings: harmless as they stand (same-site paths), off-site if a layer decodes them
 	"/%2Fevil.example/x", "/%2f%2fevil.example", "/%5Cevil.example/x", "/%09/evil.example", "/%0A/evil.example", "%2F%2Fevil.example", "/%252Fevil.example",
 	// benign same-site targets that may be followed
@@ -194,6 +196,23 @@ func c15Unit(c *RunCtx, unit int) {
 			w.Do(b, world.Req{Method: "POST", Path: P("/login"), Form: map[string]string{"email": "totp@site.test", "password": pw}})
 			rec = w.Do(b, world.Req{Method: "POST", Path: P("/2fa/totp/validate"), Form: map[string]string{"code": sim.TOTPNow(tsec), "redir": R}})
 			x.judge("totp-validate-body", R, rec, rec.SessOut["uid"] != "", world.PathLoginOK)
+		}
+		// --- TOTP / SMS: return target posted in the BODY of the password step, none at the second step
+		{
+			b := x.browser()
+			rec := w.Do(b, world.Req{Method: "POST", Path: P("/login"), Form: map[string]string{"email": "totp@site.test", "password": pw, "redir": R}})
+			x.judge("totp-hijack-body", R, rec, false, "")
+			rec = w.Do(b, world.Req{Method: "POST", Path: P("/2fa/totp/validate"), Form: map[string]string{"code": sim.TOTPNow(tsec)}})
+			x.judge("totp-validate-after-body-redir", R, rec, false, "")
+			b = x.browser()
+			rec = w.Do(b, world.Req{Method: "POST", Path: P("/login"), Form: map[string]string{"email": "sms@site.test", "password": pw, "redir": R}})
+			x.judge("sms-hijack-body", R, rec, false, "")
+			code := ""
+			if n := len(w.SMSs); n > 0 {
+				code = w.SMSs[n-1].Text
+			}
+			rec = w.Do(b, world.Req{Method: "POST", Path: P("/2fa/sms/validate"), Form: map[string]string{"code": code}})
+			x.judge("sms-validate-after-body-redir", R, rec, false, "")
 		}
 		// --- SMS
 		{
